@@ -358,3 +358,96 @@ Theorem C01_prima_leaf_ber_roundtrip_in_stream : forall l x bs rest,
   p_ber_dec (PElem (ELeaf l)) (bs ++ rest) = Some (PVElem x, rest).
 Proof. exact leaf_ber_roundtrip_in_stream. Qed.
 Print Assumptions C01_prima_leaf_ber_roundtrip_in_stream.
+(* ================= DEFAULT components of an extensible SEQUENCE (root members and extension additions) =================
+   Encoders: coq/Rt/CanonicalDefault.v (a stored component equal to its DEFAULT is absent at every place an encoder looks
+   at it).  Decoders: coq/Rt/DefaultRt.v (which absent components `default_value_set` fills in: BER none; UPER all; OER the
+   root always, the additions only when the extension bit is set).  The structure that comes back is in general not the one
+   that went in; the round trip holds up to [dflt_equiv] (component by component equal, or both at the DEFAULT), and
+   equivalent structures have the same DER / UPER / OER octets.  Tie: lib/c01_dflt.py. *)
+From A1 Require Import Rt.Canonical Rt.CanonicalDefault Rt.DefaultRt Rt.DefaultRtProofs.
+
+Theorem C01_default_oer_roundtrip_in_stream : forall dr da t v bs rest,
+  wf_ety_oer t = true -> wt_ety_oer t v -> dflt_shape dr da t ->
+  dfl_oer dr da t v = Some bs ->
+  exists v', dfl_oer_dec dr da t (bs ++ rest) = Some (v', rest) /\ dflt_equiv dr da v v'.
+Proof. exact dfl_oer_roundtrip_in_stream. Qed.
+Print Assumptions C01_default_oer_roundtrip_in_stream.
+
+(* the structure SEQUENCE_decode_oer leaves behind, exactly (what the tie compares pointer by pointer): root DEFAULTs always
+   stored; the DEFAULTs of the additions stored when some addition was encoded (extension bit set), absent otherwise *)
+Theorem C01_default_oer_roundtrip_exact : forall dr da tg root adds rvs avs bs rest,
+  wf_ety_oer (ESeq tg root adds) = true -> wt_ety_oer (ESeq tg root adds) (EVSeq rvs avs) ->
+  dfl_oer dr da (ESeq tg root adds) (EVSeq rvs avs) = Some bs ->
+  dfl_oer_dec dr da (ESeq tg root adds) (bs ++ rest) =
+    Some (EVSeq (fill dr (elide dr rvs))
+                (if existsb is_present (elide da avs) then fill da (elide da avs) else elide da avs), rest).
+Proof. exact dfl_oer_roundtrip_exact. Qed.
+Print Assumptions C01_default_oer_roundtrip_exact.
+
+(* complete encodings: exactly the octets produced are consumed; the result has the DER of the original and re-encodes
+   to the same OER octets *)
+Theorem C01_default_oer_roundtrip : forall dr da t v bs,
+  wf_ety_oer t = true -> wt_ety_oer t v -> dflt_shape dr da t ->
+  dfl_oer dr da t v = Some bs ->
+  exists v', dfl_oer_decode dr da t bs = Some (v', zlen bs) /\ dflt_equiv dr da v v' /\
+             dfl_der dr da t v' = dfl_der dr da t v /\ dfl_oer dr da t v' = Some bs.
+Proof. exact dfl_oer_roundtrip. Qed.
+Print Assumptions C01_default_oer_roundtrip.
+
+Theorem C01_default_uper_roundtrip : forall std dr da t v bytes,
+  wf_ety_uper t = true -> wt_ety_uper std t v -> dflt_shape dr da t ->
+  dfl_uper std dr da t v = Some bytes ->
+  exists v', dfl_uper_decode std dr da t bytes = Some (v', zlen bytes) /\ dflt_equiv dr da v v' /\
+             dfl_der dr da t v' = dfl_der dr da t v /\ dfl_uper std dr da t v' = Some bytes.
+Proof. exact dfl_uper_roundtrip. Qed.
+Print Assumptions C01_default_uper_roundtrip.
+
+(* DER written, BER read: nothing is filled in, the components at their DEFAULT come back absent *)
+Theorem C01_default_ber_roundtrip : forall dr da t v bs,
+  wf_ety_der t = true -> wt_ety_der t v = true -> dflt_shape dr da t ->
+  dfl_der dr da t v = Some bs -> zlen bs <= rssize_max ->
+  dfl_ber_decode dr da t bs = Some (elide_v dr da v, zlen bs) /\ dflt_equiv dr da v (elide_v dr da v).
+Proof. exact dfl_ber_roundtrip. Qed.
+Print Assumptions C01_default_ber_roundtrip.
+
+(* transcoding: structures that denote the same value have the same octets in each of the three syntaxes *)
+Theorem C01_default_equiv_same_der : forall dr da t v1 v2,
+  dflt_equiv dr da v1 v2 -> dfl_der dr da t v1 = dfl_der dr da t v2.
+Proof. exact dflt_equiv_same_der. Qed.
+Print Assumptions C01_default_equiv_same_der.
+
+Theorem C01_default_equiv_same_uper : forall std dr da t v1 v2,
+  dflt_equiv dr da v1 v2 -> dfl_uper std dr da t v1 = dfl_uper std dr da t v2.
+Proof. exact dflt_equiv_same_uper. Qed.
+Print Assumptions C01_default_equiv_same_uper.
+
+Theorem C01_default_equiv_same_oer : forall dr da t v1 v2,
+  dflt_equiv dr da v1 v2 -> dfl_oer dr da t v1 = dfl_oer dr da t v2.
+Proof. exact dflt_equiv_same_oer. Qed.
+Print Assumptions C01_default_equiv_same_oer.
+
+(* the encoder of the seeded change C01-7 (presence bitmap of the additions from pointer presence): the same octets as
+   the real one exactly where no addition is stored with its DEFAULT value ... *)
+Theorem C01_default_oer_ptr_bitmap_agrees : forall dr da t rvs avs,
+  elide da avs = avs ->
+  dfl_oer_ptr_bitmap dr da t (EVSeq rvs avs) = dfl_oer dr da t (EVSeq rvs avs).
+Proof. exact dfl_oer_ptr_bitmap_agrees. Qed.
+Print Assumptions C01_default_oer_ptr_bitmap_agrees.
+
+(* ... and elsewhere octets the decoder cannot read (the seed's own type and value: level 5 and flag TRUE stored, note present) *)
+Theorem C01_default_oer_ptr_bitmap_refuted :
+  wf_ety_oer wit7_t = true /\ wt_ety_oer wit7_t wit7_v /\ dflt_shape wit7_dr wit7_da wit7_t /\
+  dfl_oer wit7_dr wit7_da wit7_t wit7_v = Some [128; 200; 2; 5; 32; 4; 3; 97; 98; 99] /\
+  dfl_oer_ptr_bitmap wit7_dr wit7_da wit7_t wit7_v = Some [128; 200; 2; 5; 224; 4; 3; 97; 98; 99] /\
+  dfl_oer_dec wit7_dr wit7_da wit7_t [128; 200; 2; 5; 224; 4; 3; 97; 98; 99] = None.
+Proof. exact dfl_oer_ptr_bitmap_refuted. Qed.
+Print Assumptions C01_default_oer_ptr_bitmap_refuted.
+
+(* non-vacuity, and the asymmetry of SEQUENCE_decode_oer: with the extension bit set the DEFAULT additions come back
+   stored, without it they stay absent *)
+Theorem C01_default_oer_roundtrip_example :
+  dfl_oer_decode wit7_dr wit7_da wit7_t [128; 200; 2; 5; 32; 4; 3; 97; 98; 99] = Some (wit7_v, 10) /\
+  dfl_oer_decode wit7_dr wit7_da wit7_t [0; 200] = Some (EVSeq [VInt 200] [VNone; VNone; VNone], 2) /\
+  dfl_oer wit7_dr wit7_da wit7_t (EVSeq [VInt 200] [VSome (VInt 5); VSome (VBool true); VNone]) = Some [0; 200].
+Proof. exact dfl_oer_roundtrip_example. Qed.
+Print Assumptions C01_default_oer_roundtrip_example.
